@@ -134,7 +134,19 @@ def rtdc_copy(src_h5file: h5py.Group,
         for feat in feature_iter:
             if not feature_exists(feat):
                 continue
-            elif feat in src_h5file["events"]:
+            if (include_basins
+                    and "basin_events" in src_h5file
+                    and feat in src_h5file["basin_events"]):
+                # Also copy internal basins which should have been defined
+                # in the "basin_events" group (also if a feature with the
+                # same name is stored in "events": the basin definition
+                # that is copied refers to these data).
+                h5ds_copy(src_loc=src_h5file["basin_events"],
+                          src_name=feat,
+                          dst_loc=dst_h5file.require_group("basin_events"),
+                          dst_name=feat
+                          )
+            if feat in src_h5file["events"]:
                 # Skip all defective features. These are features that
                 # are known to be invalid (e.g. ancillary features that
                 # were computed falsely) and must be recomputed by dclab.
@@ -156,18 +168,6 @@ def rtdc_copy(src_h5file: h5py.Group,
                                         ]:
                         if attr not in dst.attrs:
                             dst.attrs[attr] = ufunc(dst)
-
-            elif (include_basins
-                    and "basin_events" in src_h5file
-                    and feat in src_h5file["basin_events"]):
-                # Also copy internal basins which should have been defined
-                # in the "basin_events" group.
-                if feat in src_h5file["basin_events"]:
-                    h5ds_copy(src_loc=src_h5file["basin_events"],
-                              src_name=feat,
-                              dst_loc=dst_h5file.require_group("basin_events"),
-                              dst_name=feat
-                              )
 
 
 def basin_definition_copy(src_h5file, dst_h5file, features_iter):
